@@ -58,6 +58,16 @@ class Mult:
 MULT = Mult()
 
 
+class Closure:
+    """A nested function or lambda of the followed function, callable inside the model."""
+
+    def __init__(self, node, machine):
+        self.node, self.machine = node, machine
+
+    def __repr__(self):
+        return f"<closure {getattr(self.node, 'name', 'lambda')}>"
+
+
 class Raised(Exception):
     def __init__(self, what: str):
         self.what = what
@@ -83,6 +93,8 @@ class Undecidable(AnalysisError):
 def render(v) -> str:
     if isinstance(v, Opaque):
         return v.text
+    if isinstance(v, Closure):
+        return repr(v)
     if isinstance(v, tuple):
         return "(" + ", ".join(render(x) for x in v) + ("," if len(v) == 1 else "") + ")"
     if isinstance(v, list):
@@ -98,6 +110,7 @@ class Machine:
         """attrs(dotted text) -> value | NotImplemented;  call(machine, node, name, args, kwargs) -> value | NotImplemented;
         undecided(test text) -> the branch to take for a test the model cannot decide, or None (-> Undecidable)."""
         self.env = dict(env)
+        self.globals_ = {k: v for k, v in env.items() if isinstance(v, Closure) and v.machine is None or k.isupper() or k.startswith("_")}
         self.attrs, self.call_hook, self.fuel, self.undecided = attrs, call, fuel, undecided
         self.stores: List[tuple] = []
         self.attr_stores: List[tuple] = []
@@ -188,6 +201,8 @@ class Machine:
             return self.comprehension(e)
         if isinstance(e, ast.Starred):
             return self.ev(e.value)
+        if isinstance(e, ast.Lambda):
+            return Closure(e, self)
         return Opaque(ast.unparse(e)[:60])
 
     def comprehension(self, e):
@@ -203,7 +218,7 @@ class Machine:
             if isinstance(it, dict):
                 it = list(it)
             if not isinstance(it, (list, tuple)):
-                raise Undecidable(f"comprehension over {it!r}")
+                it = self.iterate(it, g.iter)
             for item in it:
                 self.assign(g.target, item)
                 if all(self.truth(self.ev(c), c) for c in g.ifs):
@@ -212,8 +227,21 @@ class Machine:
         self.env = saved
         return dict(out) if isinstance(e, ast.DictComp) else out
 
+    def iterate(self, v, node):
+        """the items of a value that is not a sequence of the model (overridden by rules that know what an opaque ranges over)"""
+        raise Undecidable(f"iteration over {v!r} (`{ast.unparse(node)[:60]}`)")
+
+    def enter(self, v, node):
+        """value bound by `with <v> as name` (the context manager itself unless a rule knows better)"""
+        return v
+
     def truth(self, v, node) -> bool:
         if isinstance(v, (Opaque, Mono, Mult)):
+            uv = getattr(self, "undecided_value", None)
+            if uv is not None:
+                d = uv(v, ast.unparse(node))
+                if d is not None:
+                    return d
             if self.undecided is not None:
                 d = self.undecided(ast.unparse(node))
                 if d is not None:
@@ -269,6 +297,27 @@ class Machine:
                     return Mono(x.base, x.exp + y[1])
         return Opaque(f"({render(a)} {type(op).__name__} {render(b)})", (type(op).__name__, a, b))
 
+    def arguments(self, e: ast.Call):
+        args: List[Any] = []
+        for a in e.args:
+            if isinstance(a, ast.Starred):
+                v = self.ev(a.value)
+                if not isinstance(v, (tuple, list)):
+                    raise Undecidable(f"*{ast.unparse(a.value)} is not a sequence in the model")
+                args.extend(v)
+            else:
+                args.append(self.ev(a))
+        kwargs: Dict[str, Any] = {}
+        for k in e.keywords:
+            v = self.ev(k.value)
+            if k.arg is None:
+                if not isinstance(v, dict):
+                    raise Undecidable(f"**{ast.unparse(k.value)} is not a dict in the model")
+                kwargs.update(v)
+            else:
+                kwargs[k.arg] = v
+        return args, kwargs
+
     def callee(self, f):
         """(name, receiver): the name under which a call is reported - through a local that holds a function value
         (`join = getattr(start, "union"); join(...)`) and through opaque receivers (`target.copy()`)."""
@@ -289,26 +338,64 @@ class Machine:
                 return v.text, (v.parts[1] if v.parts and v.parts[0] == "attr" else None)
         return ast.unparse(f), None
 
+    def invoke(self, clo: Closure, args, kwargs):
+        node = clo.node
+        a = node.args
+        # a module-level function sees the module's constants and functions, a nested one the variables of its definition site
+        env = dict(clo.machine.env) if clo.machine is not None else dict(getattr(self, "globals_", {}))
+        names = [p.arg for p in a.posonlyargs + a.args]
+        defaults = dict(zip(names[len(names) - len(a.defaults):], a.defaults))
+        for p, d in zip(a.kwonlyargs, a.kw_defaults):
+            if d is not None:
+                defaults[p.arg] = d
+        bound = dict(zip(names, args))
+        if len(args) > len(names):
+            if not a.vararg:
+                raise Raised("TypeError")
+            bound[a.vararg.arg] = tuple(args[len(names):])
+        elif a.vararg:
+            bound[a.vararg.arg] = ()
+        extra = {}
+        for k, v in kwargs.items():
+            if k in names or k in [p.arg for p in a.kwonlyargs]:
+                bound[k] = v
+            else:
+                extra[k] = v
+        if a.kwarg:
+            bound[a.kwarg.arg] = extra
+        elif extra:
+            raise Raised("TypeError")
+        sub = type(self)(env, self.attrs, self.call_hook, self.fuel, self.undecided)
+        sub.__dict__.update({k: v for k, v in self.__dict__.items() if k not in ("env",)})     # shared hooks, logs and scenario state
+        sub.env = env
+        for p in names + [p.arg for p in a.kwonlyargs]:
+            if p not in bound:
+                if p not in defaults:
+                    raise Raised("TypeError")
+                bound[p] = sub.ev(defaults[p])
+        env.update(bound)
+        self.depth = getattr(self, "depth", 0) + 1
+        if self.depth > 12:
+            raise Undecidable("closure recursion too deep for the model")
+        try:
+            if isinstance(node, ast.Lambda):
+                return sub.ev(node.body)
+            kind, val = sub.run_function(node)
+        finally:
+            self.depth -= 1
+        if kind == "raise":
+            raise Raised(val)
+        return val
+
     def call(self, e: ast.Call):
+        if isinstance(e.func, (ast.Name, ast.Subscript)) or (isinstance(e.func, ast.Call) and isinstance(e.func.func, ast.Attribute)
+                                                              and e.func.func.attr == "get"):
+            fv = self.ev(e.func)
+            if isinstance(fv, Closure):
+                args_, kwargs_ = self.arguments(e)
+                return self.invoke(fv, args_, kwargs_)
         name, recv = self.callee(e.func)
-        args: List[Any] = []
-        for a in e.args:
-            if isinstance(a, ast.Starred):
-                v = self.ev(a.value)
-                if not isinstance(v, (tuple, list)):
-                    raise Undecidable(f"*{ast.unparse(a.value)} is not a sequence in the model")
-                args.extend(v)
-            else:
-                args.append(self.ev(a))
-        kwargs: Dict[str, Any] = {}
-        for k in e.keywords:
-            v = self.ev(k.value)
-            if k.arg is None:
-                if not isinstance(v, dict):
-                    raise Undecidable(f"**{ast.unparse(k.value)} is not a dict in the model")
-                kwargs.update(v)
-            else:
-                kwargs[k.arg] = v
+        args, kwargs = self.arguments(e)
         r = self.call_hook(self, e, name, args, kwargs)
         if r is not NotImplemented:
             return r
@@ -451,7 +538,7 @@ class Machine:
             elif isinstance(it, dict):
                 seq = list(it)
             else:
-                raise Undecidable(f"iteration over {it!r}")
+                seq = self.iterate(it, st.iter)
             broke = False
             for n, item in enumerate(seq):
                 if n >= self.fuel:
@@ -480,8 +567,14 @@ class Machine:
         elif isinstance(st, ast.Assert):
             pass
         elif isinstance(st, (ast.With,)):
+            for item in st.items:
+                v = self.enter(self.ev(item.context_expr), item.context_expr)
+                if item.optional_vars is not None:
+                    self.assign(item.optional_vars, v)
             self.run(st.body)
-        elif isinstance(st, (ast.FunctionDef, ast.Import, ast.ImportFrom, ast.Global, ast.Nonlocal)):
+        elif isinstance(st, ast.FunctionDef):
+            self.env[st.name] = Closure(st, self)
+        elif isinstance(st, (ast.Import, ast.ImportFrom, ast.Global, ast.Nonlocal)):
             pass
         elif isinstance(st, ast.Try):
             # only exceptions of the model (Raised) are caught, by any handler
@@ -531,4 +624,7 @@ def module_constants(tree: ast.Module) -> Dict[str, Any]:
                 continue
             m.env[st.targets[0].id] = v
             out[st.targets[0].id] = v
+        # private module-level helpers are followed when they are called (or stored in a table and called through it)
+        if isinstance(st, ast.FunctionDef) and st.name.startswith("_") and not st.decorator_list:
+            out[st.name] = Closure(st, None)
     return out
